@@ -2,4 +2,5 @@ SPECIFICATION Spec
 CONSTANTS MaxLines = 2
           Shapes <- ShapesFull
           Endings <- EndingsAll
+          Policies <- UniformPolicies
 INVARIANTS Statement
